@@ -140,3 +140,6 @@ package annotations
 
 //@ func AnnotationHolder.Attributes props C10,C16,C14
 //@ ensures fresh(result) && len(result) == len(holder.attributes) && forall(i, 0, len(result), result[i] == holder.attributes[i])
+
+//@ func AnnotationHolder.Source props C10,C14
+//@ ensures result == holder.source
